@@ -244,6 +244,7 @@ func runC10(r *mc.Run) {
 	c10ModuleIdentityShapes(r)
 	c10LevelComponentShapes(r)
 	c10RootCrlPoints(r)
+	c10CertificateNames(r)
 
 	// (3) arbitrary endpoint behaviour
 	c10Endpoints(r, bases[0])
@@ -879,4 +880,74 @@ func c10RootCrlPoints(r *mc.Run) {
 		}
 	})
 	r.SectionDone(mc.Section{Name: "root-crl-distribution-points", Evaluations: int64(done) * 2, Exhaustive: done == len(jobs), Note: fmt.Sprintf("%d x %d answers of two distribution points", len(answers), len(answers))})
+}
+
+// c10CertificateNames: certificate chains whose common names are near the names the library looks for (shorter,
+// longer, the fixed prefix and suffix alone or overlapping, empty, very long): every entry point that reads the chain
+// returns a result or an error.
+func c10CertificateNames(r *mc.Run) {
+	w := world.Honest("T")
+	T := w.PKI
+	names := []string{"Intel SGX PCK CA", "Intel SGX PCK  CA", "Intel SGX PCK", "Intel SGX PCK ", " CA", "CA", "", "Intel SGX PCK Platform", "Intel SGX PCK Platform CA ", "Intel SGX PCK Processor CA",
+		"Intel SGX PCK Platform Processor CA", "intel sgx pck platform ca", "Intel SGX PCK \x00 CA", "Intel SGX PCK Platform CA\x00", strings.Repeat("Intel SGX PCK ", 300) + "CA", "Intel SGX Root CA", "Intel SGX PCK Certificate", "Intel SGX TCB Signing"}
+	positions := []string{"intermediate", "leaf", "root", "tcb-signer"}
+	type job struct{ n, p int }
+	var jobs []job
+	for n := range names {
+		for p := range positions {
+			jobs = append(jobs, job{n, p})
+		}
+	}
+	done := r.Parallel(len(jobs), func(i int) {
+		j := jobs[i]
+		id := fmt.Sprintf("certificate-names/%s=%q", positions[j.p], shortName(names[j.n]))
+		if !r.Want(id) {
+			return
+		}
+		cn := names[j.n]
+		root, inter, leaf, tcb := T.Root, T.Inter, T.Leaf, T.Tcb
+		switch positions[j.p] {
+		case "intermediate":
+			inter = world.MakeCert(world.CertSpec{CN: cn, IsCA: true, Key: T.InterKey, MaxPathLen: -1}, T.Root, T.RootKey)
+			leaf = world.MakeCert(world.CertSpec{CN: world.CNLeaf, Key: T.LeafKey, SGXExt: world.SGXExtension(w.Plat)}, inter, T.InterKey)
+		case "leaf":
+			leaf = world.MakeCert(world.CertSpec{CN: cn, Key: T.LeafKey, SGXExt: world.SGXExtension(w.Plat)}, T.Inter, T.InterKey)
+		case "root":
+			root = world.MakeCert(world.CertSpec{CN: cn, IsCA: true, Key: T.RootKey, MaxPathLen: 1}, nil, T.RootKey)
+		case "tcb-signer":
+			tcb = world.MakeCert(world.CertSpec{CN: cn, Key: T.TcbKey}, T.Root, T.RootKey)
+		}
+		p := w.Parts.Clone()
+		p.Chain = world.PEM(leaf, inter, root)
+		raw, _ := p.Bytes()
+		for _, lvl := range []int{world.L0, world.L2} {
+			lvl := lvl
+			mk := func() *verify.Options {
+				o := w.Options(lvl)
+				g := w.Getter.Clone()
+				hdr := world.IssuerChainHeader(tcb, root)
+				g.Responses[world.URLQeIdentity] = world.Response{Header: map[string][]string{world.HdrQeIdentity: {hdr}}, Body: g.Responses[world.URLQeIdentity].Body}
+				u := world.URLTcbInfo(hexs(w.Plat.FMSPC))
+				g.Responses[u] = world.Response{Header: map[string][]string{world.HdrTcbInfo: {hdr}}, Body: g.Responses[u].Body}
+				g.Responses[world.URLPckCrl("platform")] = world.Response{Header: map[string][]string{world.HdrPckCrl: {world.IssuerChainHeader(inter, root)}}, Body: g.Responses[world.URLPckCrl("platform")].Body}
+				g.Default = func(string) world.Response { return world.Response{Body: w.PckCrl} }
+				o.Getter = g
+				o.TrustedRoots = world.Pool(root)
+				return o
+			}
+			o := mk()
+			c10Call(r, id, "verify.RawTdxQuote/"+lvlName[lvl], nil, func() error { return verify.RawTdxQuote(raw, o) })
+		}
+		if q, err := safeToProto(raw); err == nil {
+			c10Call(r, id, "verify.ExtractChainFromQuote", nil, func() error { _, e := verify.ExtractChainFromQuote(q); return e })
+		}
+	})
+	r.SectionDone(mc.Section{Name: "certificate-names", Evaluations: int64(done) * 3, Exhaustive: done == len(jobs), Note: fmt.Sprintf("%d names x %d certificate positions", len(names), len(positions))})
+}
+
+func shortName(s string) string {
+	if len(s) > 48 {
+		return fmt.Sprintf("%s...(%d bytes)", s[:40], len(s))
+	}
+	return s
 }
